@@ -53,6 +53,29 @@ def _is_hashable_helper_ok(tree: ast.Module) -> bool:
     return src == f"try: hash({arg}) except TypeError: return False ; return True"
 
 
+def _options_view_ok(tree: ast.Module) -> bool:
+    """`RequestOptionsError(IndexError)` and `_RequestOptions(list)` whose `__getitem__` is
+    try: return super().__getitem__(index) / except IndexError: raise RequestOptionsError(...) from None"""
+    err = next((n for n in tree.body if isinstance(n, ast.ClassDef) and n.name == "RequestOptionsError"), None)
+    view = next((n for n in tree.body if isinstance(n, ast.ClassDef) and n.name == "_RequestOptions"), None)
+    if err is None or view is None:
+        return False
+    if [ast.unparse(b) for b in err.bases] != ["IndexError"] or [ast.unparse(b) for b in view.bases] != ["list"]:
+        return False
+    meths = [m for m in view.body if isinstance(m, ast.FunctionDef)]
+    if [m.name for m in meths] != ["__getitem__"]:
+        return False   # nothing else may be overridden (iteration, len, slicing stay those of list)
+    g = [x for x in meths[0].body if not (isinstance(x, ast.Expr) and isinstance(x.value, ast.Constant))]
+    if len(g) != 1 or not isinstance(g[0], ast.Try) or len(g[0].handlers) != 1:
+        return False
+    t = g[0]
+    arg = meths[0].args.args[1].arg
+    return (len(t.body) == 1 and ast.unparse(t.body[0]) == f"return super().__getitem__({arg})"
+            and ast.unparse(t.handlers[0].type) == "IndexError" and len(t.handlers[0].body) == 1
+            and isinstance(t.handlers[0].body[0], ast.Raise)
+            and ast.unparse(t.handlers[0].body[0].exc).startswith("RequestOptionsError("))
+
+
 def steps_of(fn: ast.FunctionDef, flags: dict = None) -> list:
     out = []
     for st in fn.body:
@@ -82,10 +105,22 @@ def steps_of(fn: ast.FunctionDef, flags: dict = None) -> list:
                 b = [s for s in st.body if not _is_log_or_msg(s)]
                 if len(b) == 1 and ast.unparse(b[0]) == "return request_type.func.check_valid(request_options, context)":
                     out.append("ifManager_recurse")
+                elif len(b) == 1 and ast.unparse(b[0]) == "return request_type.func(request_options, context)":
+                    out.append("ifManager_invoke")
                 else:
                     raise ValueError("unrecognised manager branch: " + src[:200])
             else:
                 raise ValueError("unrecognised test: " + test)
+        elif isinstance(st, ast.Try):
+            # try: return request_type.func(_RequestOptions(request_options), context)
+            # except RequestOptionsError as e: <msg/log> return RequestResponse(status="failure", ...)
+            body = [x for x in st.body if not _is_log_or_msg(x)]
+            ok = (len(body) == 1 and ast.unparse(body[0]) == "return request_type.func(_RequestOptions(request_options), context)"
+                  and not st.orelse and not st.finalbody and len(st.handlers) == 1
+                  and st.handlers[0].type is not None and ast.unparse(st.handlers[0].type) == "RequestOptionsError")
+            if not ok:
+                raise ValueError("unrecognised try statement: " + src[:200])
+            out.append(f"invokeLeaf_optionsError_{_ret_status(st.handlers[0].body)}")
         elif isinstance(st, ast.Return):
             if src == "return request_type.func(request_options, context)":
                 out.append("invoke")
@@ -110,7 +145,7 @@ def emit() -> str:
     b = (lambda x: "true" if x else "false")
     names = sorted(set(call + cv) | {"takeKey", "takeOptions", "lookup", "invoke", "ifEmpty_unreachable", "ifMissing_unreachable",
                                       "ifValidatorFalse_failure", "ifEmpty_false", "ifMissing_false", "ifValidatorFalse_false",
-                                      "ifManager_recurse", "return_true"})
+                                      "ifManager_recurse", "return_true", "ifManager_invoke", "invokeLeaf_optionsError_failure"})
     ctors = " | ".join(names)
     return f"""namespace Primaite.Gen.RequestCore
 inductive Step | {ctors}
@@ -125,5 +160,8 @@ def checkValidSteps : List Step := [{", ".join(cv)}]
 position) as a missing key instead of letting `in` raise TypeError? (`_is_hashable` must be the try-hash helper) -/
 def callTotalOnUnhashable : Bool := {b(fcall.get("guards_unhashable") and helper)}
 def checkValidTotalOnUnhashable : Bool := {b(fcv.get("guards_unhashable") and helper)}
+/-- is a leaf handler handed the options as `_RequestOptions` (a list whose out-of-range read raises `RequestOptionsError`, and
+nothing else overridden), with exactly that exception answered `failure` by `__call__`? -/
+def leafAnswersMissingOptions : Bool := {b("invokeLeaf_optionsError_failure" in call and "invoke" not in call and _options_view_ok(tree))}
 end Primaite.Gen.RequestCore
 """
